@@ -665,3 +665,87 @@ def c20_search(rng, n):
             if len(fails) >= 2:
                 break
     return fails, st
+
+
+# ---------------------------------------------------------------------------------------------------------------
+# C01: empirical strong order on the real sdeint against closed-form solutions driven by the SAME Brownian path
+# ---------------------------------------------------------------------------------------------------------------
+
+class GBM(nn.Module):
+    """dy = a y dt + b y dW (Ito: exact y0 exp((a - b^2/2) t + b W_t); Stratonovich: y0 exp(a t + b W_t)); d = m = 1"""
+
+    def __init__(self, noise_type, sde_type, a=0.4, b=0.6):
+        super().__init__()
+        self.noise_type, self.sde_type, self.a, self.b = noise_type, sde_type, a, b
+
+    def f(self, t, y):
+        return self.a * y
+
+    def g(self, t, y):
+        return self.b * y if self.noise_type == 'diagonal' else (self.b * y).unsqueeze(-1)
+
+    def exact(self, y0, t, W):
+        drift = (self.a - 0.5 * self.b ** 2) if self.sde_type == 'ito' else self.a
+        return y0 * torch.exp(drift * t + self.b * W)
+
+
+class SinhSDE(nn.Module):
+    """dy = sqrt(1+y^2) o dW  (Ito form: dy = y/2 dt + sqrt(1+y^2) dW); exact sinh(asinh(y0) + W_t); g'' != 0"""
+
+    def __init__(self, noise_type, sde_type):
+        super().__init__()
+        self.noise_type, self.sde_type = noise_type, sde_type
+
+    def f(self, t, y):
+        return 0.5 * y if self.sde_type == 'ito' else 0.0 * y
+
+    def g(self, t, y):
+        g = torch.sqrt(1 + y ** 2)
+        return g if self.noise_type == 'diagonal' else g.unsqueeze(-1)
+
+    def exact(self, y0, t, W):
+        return torch.sinh(torch.asinh(y0) + W)
+
+
+def strong_order_estimate(method, sde_type, noise, seed, options=None, paths=400, T=1.0, ks=(3, 5, 7), family='gbm'):
+    sde = GBM(noise, sde_type) if family == 'gbm' else SinhSDE(noise, sde_type)
+    y0 = torch.full((paths, 1), 1.0 if family == 'gbm' else 0.3, dtype=torch.float64)
+    levy = LEVY.get(method, 'none')
+    errs = []
+    for k in ks:
+        bm = BrownianInterval(t0=0.0, t1=T, size=(paths, 1), dtype=torch.float64, entropy=seed, levy_area_approximation=levy)
+        with torch.no_grad():
+            ys = torchsde.sdeint(sde, y0, [0.0, T], bm=bm, method=method, dt=2.0 ** -k, options=options)
+        W = bm(0.0, T)
+        ex = sde.exact(y0, T, W)
+        errs.append(float(((ys[-1] - ex) ** 2).mean().sqrt()))
+    slope = math.log2(errs[0] / max(errs[-1], 1e-300)) / (ks[-1] - ks[0])
+    return slope, errs
+
+
+def c01_search(rng, rounds=1):
+    """every (solver, multiplicative noise type at d = m = 1): the RMS error against the exact solution on the same path must fall
+    at least like dt^(advertised order - 0.3)"""
+    fails, st = [], dict(evals=0, slopes={})
+    for method, sde_type, noises in SOLVERS:
+        for noise in noises:
+            if noise == 'additive':
+                continue  # GBM is multiplicative; additive-noise schemes are covered by the Taylor theorems (exact for constant g)
+            for gf in ([False, True] if method == 'milstein' else [False]):
+                for _ in range(rounds):
+                    seed = rng.randrange(10 ** 6)
+                    from torchsde._core import methods as _m
+                    family = rng.choice(['gbm', 'sinh'])
+                    try:
+                        slope, errs = strong_order_estimate(method, sde_type, noise, seed, options=dict(grad_free=True) if gf else None,
+                                                            family=family)
+                        from .author_c02 import advertised_order
+                        p = advertised_order(method, sde_type, noise, gf)
+                        bad = None if slope >= p - 0.3 else f"RMS error {errs} at dt = 2^-3, 2^-5, 2^-7: slope {slope:.2f} < advertised {p} - 0.3"
+                    except Exception as e:  # noqa
+                        bad, slope = f"{type(e).__name__}: {e}", float('nan')
+                    st['evals'] += 1
+                    st['slopes'][f"{method}/{sde_type[0]}/{noise}{'/gf' if gf else ''}/{family}"] = round(slope, 2)
+                    if bad:
+                        fails.append(dict(kind='c01', method=method, sde_type=sde_type, noise=noise, grad_free=gf, seed=seed, family=family, why=bad))
+    return fails[:3], st
